@@ -96,6 +96,8 @@ class GenCfg:
     p_overhang: float = 0.0          # an operator ends 1-2 us BEFORE its last child (timer glitch: not properly nested any more)
     p_nested_annotation: float = 0.0 # a child slot of an operator becomes a user annotation that wraps further operators
     bwd_end_tie: bool = False        # the last autograd operator inside a backward annotation / profiler step ends exactly when that one ends
+    big_vocab: bool = False          # rank 0 uses > 130 distinct operator names and every later rank one name of its own: the later
+                                     # ranks' own symbols get job-wide ids >= 128 although their files hold few symbols
     same_tid_process: bool = False   # the first extra host thread belongs to ANOTHER process and has the same tid as the main thread
     python_functions: bool = False   # interpreter frames (cat python_function, profiles taken with stacks) spanning some host operators
     tie_sync: bool = False           # the main thread ends with one kernel per stream, all ending at the same instant, and a device sync
@@ -580,8 +582,22 @@ def gen_trace_set(rng: random.Random, cfg: GenCfg) -> List[RankTrace]:
     if cfg.n_steps == 0 and cfg.pre_ops == 0 and cfg.post_ops == 0:
         cfg.pre_ops = 1          # a trace has at least one operator
     import dataclasses
-    return [gen_rank(rng, dataclasses.replace(cfg, **cfg.per_rank[r]) if cfg.per_rank and r in cfg.per_rank else cfg, r)
-            for r in range(cfg.n_ranks)]
+    out = [gen_rank(rng, dataclasses.replace(cfg, **cfg.per_rank[r]) if cfg.per_rank and r in cfg.per_rank else cfg, r)
+           for r in range(cfg.n_ranks)]
+    if cfg.big_vocab and len(out) >= 2:
+        r0 = out[0]
+        hosts = [e for e in r0.events if e.get("cat") == "cpu_op" and e.get("ph") == "X"]
+        for k in range(140):
+            if k < len(hosts) - 1:
+                hosts[k + 1]["name"] = f"aten::u{k}"          # the first file entry keeps its name
+            else:           # not enough operators: tiny extra ones on a thread of their own
+                r0.events.append({"ph": "X", "cat": "cpu_op", "name": f"aten::u{k}", "pid": hosts[0]["pid"], "tid": hosts[0]["tid"] + 50,
+                                  "ts": hosts[0]["ts"], "dur": 0, "args": {"External id": 9000 + k}})
+        for rt in out[1:]:
+            own = [e for e in rt.events[1:] if e.get("cat") == "cpu_op" and e.get("ph") == "X"]
+            if own:
+                rng.choice(own)["name"] = f"aten::only_rank{rt.rank}"
+    return out
 
 
 def write_trace_set(ranks: List[RankTrace], d: str) -> List[str]:
